@@ -32,9 +32,14 @@ def sh(cmd, cwd, env=None):
 def main():
     pid, k = sys.argv[1], sys.argv[2]
     wt = "/tmp/wt/" + pid
+    if "--wt" in sys.argv:
+        wt = sys.argv[sys.argv.index("--wt") + 1]
     src = os.path.join(wt, "_seeded")
     if "--src" in sys.argv:
         src = sys.argv[sys.argv.index("--src") + 1]
+    file_as = k
+    if "--as" in sys.argv:
+        file_as = sys.argv[sys.argv.index("--as") + 1]
     patch = os.path.join(src, "patch%s.diff" % k)
     demo = os.path.join(src, "demo%s.py" % k)
     notes = os.path.join(src, "notes%s.md" % k)
@@ -63,7 +68,7 @@ def main():
     print(pid, k, "CONFIRMED" if ok else "REJECTED", json.dumps(res))
     if not ok:
         return 1
-    dst = os.path.join(ROOT, "seeded", "%s-%s" % (pid, k))
+    dst = os.path.join(ROOT, "seeded", "%s-%s" % (pid, file_as))
     os.makedirs(dst, exist_ok=True)
     shutil.copy(patch, os.path.join(dst, "patch.diff"))
     shutil.copy(demo, os.path.join(dst, "demo.py"))
